@@ -351,7 +351,7 @@ class CyclicCodeEncoder(SystematicLinearBlockCodeEncoder):
         standard_codes = {
             "Hamming(7,4)": {"code_length": 7, "generator_polynomial": 0b1011},
             "Simplex(7,3)": {"code_length": 7, "generator_polynomial": 0b10111},
-            "BCH(15,7)": {"code_length": 15, "generator_polynomial": 0b10011},
+            "BCH(15,7)": {"code_length": 15, "generator_polynomial": 0b111010001},
             "BCH(15,5)": {"code_length": 15, "generator_polynomial": 0b10100110111},
             "Golay(23,12)": {"code_length": 23, "generator_polynomial": 0b101011100011},
         }
